@@ -104,10 +104,15 @@ def make_dynamic(rng, layout):
     return lay
 
 
-def gen_layout(rng, dynamic_p=0.3):
+def gen_layout(rng, dynamic_p=0.3, zero_step_p=0.02):
     lay = gen_static_layout(rng)
     if rng.random() < dynamic_p:
         lay = make_dynamic(rng, lay)
+    if rng.random() < zero_step_p:
+        # out-of-domain probe (steps are positive in C10's quantifier): a broadcast-like step of 0; counted, never judged
+        d = rng.randrange(len(lay["dims"]))
+        lay["dims"][d][rng.randrange(len(lay["dims"][d]))][1] = 0
+        lay["mode"] = lay.get("mode", "") + "+zero"
     return lay
 
 
